@@ -42,7 +42,7 @@ PROPS = {
                 "lengths 1..70 of valid characters, IPv4/IPv6-looking names and seeded random strings; PUT /<name> through the "
                 "HTTP API on memory, bolt and multi-bucket fs (MemMapFs and real directory) for all strings up to length 4/3/3/2 "
                 "(quick) plus the special and random names and duplicates, with ListBuckets compared to the set of accepted names "
-                "every 500 requests. distinct_nontrivial = distinct accepted names (direct) + distinct (backend, name) created. The same corpus is sent (GET /<name>, and reads, sub-resources and uploads under invalid names) to servers with the auto-bucket option on memory, bolt and fs: a bucket comes to exist on first use exactly when its name is valid, and the bucket list is compared. A deleted bucket is addressed again (a multipart upload started before the delete is completed after it, an upload, a copy): it must not be listed again. Names of several lines (aaa\\n, \\naaa, aaa\\nA_, aaa.\\nbbb ...) and other white space / control characters around and inside valid names. Uploads, copies and multipart uploads with keys that spell paths out of their bucket (../zzz-sideways/x, ../../zzz-up/x ...) followed by the bucket list: buckets come to exist through create-bucket only.",
+                "every 500 requests. distinct_nontrivial = distinct accepted names (direct) + distinct (backend, name) created. The same corpus is sent (GET /<name>, and reads, sub-resources and uploads under invalid names) to servers with the auto-bucket option on memory, bolt and fs: a bucket comes to exist on first use exactly when its name is valid, and the bucket list is compared. A deleted bucket is addressed again (a multipart upload started before the delete is completed after it, an upload, a copy): it must not be listed again. Names of several lines (aaa\\n, \\naaa, aaa\\nA_, aaa.\\nbbb ...) and other white space / control characters around and inside valid names. Uploads, copies and multipart uploads with keys that spell paths out of their bucket (../zzz-sideways/x, ../../zzz-up/x ...) followed by the bucket list: buckets come to exist through create-bucket only. The special names include well-known probe / console / sub-resource names (healthz, metrics, api, admin, uploads, versions ...).",
         "explanation": "Theorem: the modelled validator equals the documented rule on every byte string of any length (no bound); "
                        "create succeeds iff valid and absent, a refusal creates nothing. Tie: the real ValidateBucketName and the "
                        "real create-bucket handlers are run on the same names as the extracted validator/spec and compared "
@@ -93,7 +93,7 @@ PROPS = {
                 "'/'), seeded subsets of size 3..6 and five 'rich' sets (a-x a/x a.x, UTF-8, nested directories); for each set every "
                 "prefix over {a,b,/} of length <= 3 not starting with '/', delimiter absent and '/' (and 'b' on memory/bolt), V1 or "
                 "V2; the memory backend runs versioned with a delete-marked ghost key; every set is deleted again and the bucket "
-                "re-listed. fs backends: conflict-free sets only. distinct_nontrivial = distinct (backend, key set, prefix, delimiter). A rich set of names a directory walk may treat specially (segments beginning with a dot, a blank, a tilde; ending with a dot); every rich set runs on every backend also in the quick tier. On the real-directory fs backends every tenth set ends with uploads the file system refuses half way; on every backend ghost keys are stored and deleted before the listings. Half of the undelimited listings send an explicit empty delimiter= parameter. On the fs backends every second key set tries uploads one and two levels below a stored object (refused; outside the model); every fs listing is also compared, contents and common prefixes in order, with fs_list of the extracted Model/FsList.v on the directory tree of the live keys. On the memory backend every third key set deletes two delete-marked ghost keys once more while versioning is suspended. On the memory backend every fourth key set removes the current version of a key with three versions by its id (the newest remaining one is listed) and of a key whose newest remaining version is a delete marker (hidden again).",
+                "re-listed. fs backends: conflict-free sets only. distinct_nontrivial = distinct (backend, key set, prefix, delimiter). A rich set of names a directory walk may treat specially (segments beginning with a dot, a blank, a tilde; ending with a dot); every rich set runs on every backend also in the quick tier. On the real-directory fs backends every tenth set ends with uploads the file system refuses half way; on every backend ghost keys are stored and deleted before the listings. Half of the undelimited listings send an explicit empty delimiter= parameter. On the fs backends every second key set tries uploads one and two levels below a stored object (refused; outside the model); every fs listing is also compared, contents and common prefixes in order, with fs_list of the extracted Model/FsList.v on the directory tree of the live keys. On the memory backend every third key set deletes two delete-marked ghost keys once more while versioning is suspended. On the memory backend every fourth key set removes the current version of a key with three versions by its id (the newest remaining one is listed) and of a key whose newest remaining version is a delete marker (hidden again). c03Unclean: on the key-value backends u/v u//v u///v u/./w u/w u/../x x with distinct sizes, listed V1/V2 under six prefix/delimiter combinations, path-style and through host-bucket-base / host-bucket servers, before and after two deletes.",
         "explanation": "Theorems: Prefix.Match equals the declarative classification (string prefix, first delimiter after it) for "
                        "every key/prefix/delimiter in the property's domain, and the unpaginated listing is exactly filter+group of the "
                        "sorted live keys. Tie: ListObjects responses (keys in order, sizes, ETags, common prefixes) of the Go handlers "
@@ -124,7 +124,7 @@ PROPS = {
                 "upload-part with part numbers in {1..4, 7, 9999, 10000, 10001, 0, -1} incl. re-uploads and empty bodies, complete with "
                 "the full ascending list / a subset / a permutation / an unknown number / a wrong ETag / a duplicate / unquoted ETags / "
                 "an empty list, abort, get, list-parts, list-uploads over two keys with several simultaneous uploads; final probe "
-                "GET/HEAD of every key and listing of every pending upload. distinct_nontrivial = distinct successful completes. c06CompleteOverlap (every backend): the backend write of a complete is held open while an abort, a part upload or a second complete of the same upload arrives; both finish, exactly one of complete / abort takes effect. One in six part uploads of a history is a refused (re-)upload (digest of other bytes, more bytes than declared). c06EmptyUploadID: part upload, part listing, complete and abort with an empty uploadId are refused and leave the object of that key alone. Half of the histories run on keys with a '%' that is no escape and a blank (50%off, sales/growth 100%.csv, a%zz, p%/q%2).",
+                "GET/HEAD of every key and listing of every pending upload. distinct_nontrivial = distinct successful completes. c06CompleteOverlap (every backend): the backend write of a complete is held open while an abort, a part upload or a second complete of the same upload arrives; both finish, exactly one of complete / abort takes effect. One in six part uploads of a history is a refused (re-)upload (digest of other bytes, more bytes than declared). c06EmptyUploadID: part upload, part listing, complete and abort with an empty uploadId are refused and leave the object of that key alone. Half of the histories run on keys with a '%' that is no escape and a blank (50%off, sales/growth 100%.csv, a%zz, p%/q%2). A third of the initiations with metadata give a header with an empty value.",
         "explanation": "Theorems over the uploader model: an accepted complete stores exactly the concatenation of the latest upload of "
                        "each listed part with the composite ETag and the initiation metadata and removes the upload; a rejected "
                        "complete and an abort leave object and pending upload state as required. Tie: every response (status, code, "
@@ -177,7 +177,7 @@ PROPS = {
                 "bases (first / second base, configured with stray dots and a port); fall-backs (localhost, the base itself, a "
                 "multi-label prefix, an unrelated host); path-style with an extra leading and with a trailing slash. A recording "
                 "backend wrapper reports the bucket/key each handler addressed. distinct_nontrivial = distinct (variant, method, "
-                "sub-resource, bucket, key). Keys named like their bucket (bkt, bkt/k, bkt.s3.example.com/k) are in the pool. Twins for every order and combination of the two host options, host-bucket named explicitly off included. c16Concurrent: 16 x 1500 simultaneous host-style requests for 4 buckets to one server (bases, and plain host-bucket). Twins whose configured bases include <bucket>.<another base>. Four twins whose host-base option is given twice (the later list replaces the earlier; an empty list switches the bases off, alone and before host-bucket). Four twins whose bases begin with the letters of a URL scheme (test.example, host.example:9000, play.example, p.example, http.example).",
+                "sub-resource, bucket, key). Keys named like their bucket (bkt, bkt/k, bkt.s3.example.com/k) are in the pool. Twins for every order and combination of the two host options, host-bucket named explicitly off included. c16Concurrent: 16 x 1500 simultaneous host-style requests for 4 buckets to one server (bases, and plain host-bucket). Twins whose configured bases include <bucket>.<another base>. Four twins whose host-base option is given twice (the later list replaces the earlier; an empty list switches the bases off, alone and before host-bucket). Four twins whose bases begin with the letters of a URL scheme (test.example, host.example:9000, play.example, p.example, http.example). A quarter of the uploads have an empty body.",
         "explanation": "Theorems: the routed (bucket, object) of a host-style request equals that of the path-style request for every "
                        "bucket label, key path and base list; unmatched hosts fall back unchanged; extra slashes do not change the "
                        "address. Tie: recorded backend addresses of the Go handlers vs the extracted router; spec oracle: canonical "
@@ -233,7 +233,7 @@ PROPS = {
                 "backends, every file on disk classified by bucket root) is compared with the snapshot before by the frame oracle: "
                 "only entries of the addressed (bucket, key) may change, a refused operation may change nothing, no file may appear "
                 "outside the addressed bucket's roots. Memory and bolt are additionally stepped against the model. "
-                "distinct_nontrivial = distinct (backend, bucket, key, status). Buckets bkc2 and bkc.x (names beginning with the name of bucket bkc) hold objects while the empty bucket bkc is created and deleted; the snapshot also records the common prefixes of a delimiter listing and, on real directories, the directories on disk; copies are also attempted from source buckets . .. buckets metadata _meta ./<bucket> spelling the path to a stored object (must be refused); every history ends with a force-delete (x-minio-force-delete) of a bucket that holds keys named like other buckets, under the frame oracle only. On memory and bolt the creation date is part of a bucket's list entry in the snapshot. The snapshot holds every pending multipart upload with its parts; uploads are started and their ids then used through another key of the bucket (refused, nothing changes). A third of the listings carry prefixes that spell paths to other buckets; everything listed must be a key written to the addressed bucket under that prefix. Listing completeness: for prefixes cut from stored keys, and at the end of every history for the beginning of every held key with and without delimiter, every key held under the prefix is shown or lies under a shown common prefix; the key-value backends hold /lead next to lead. c02Nesting at the end of every history: an upload above or below a stored key is refused or stored, never at the cost of the key that was there, and what is served is listed.",
+                "distinct_nontrivial = distinct (backend, bucket, key, status). Buckets bkc2 and bkc.x (names beginning with the name of bucket bkc) hold objects while the empty bucket bkc is created and deleted; the snapshot also records the common prefixes of a delimiter listing and, on real directories, the directories on disk; copies are also attempted from source buckets . .. buckets metadata _meta ./<bucket> spelling the path to a stored object (must be refused); every history ends with a force-delete (x-minio-force-delete) of a bucket that holds keys named like other buckets, under the frame oracle only. On memory and bolt the creation date is part of a bucket's list entry in the snapshot. The snapshot holds every pending multipart upload with its parts; uploads are started and their ids then used through another key of the bucket (refused, nothing changes). A third of the listings carry prefixes that spell paths to other buckets; everything listed must be a key written to the addressed bucket under that prefix. Listing completeness: for prefixes cut from stored keys, and at the end of every history for the beginning of every held key with and without delimiter, every key held under the prefix is shown or lies under a shown common prefix; the key-value backends hold /lead next to lead. c02Nesting at the end of every history: an upload above or below a stored key is refused or stored, never at the cost of the key that was there, and what is served is listed. Every history opens by storing n.tmp n~ n.part n.new .n.tmp n.bak .n.swp and then uploads n.",
         "explanation": "Theorems: frame laws of the model (an operation addressed to (bucket, key) changes no other (bucket, key); keys "
                        "that differ as byte strings are different objects; an unknown bucket name is never served). Tie: model "
                        "comparison on the opaque-key backends; the model-free frame oracle (extracted from Coq) on the observations "
@@ -279,7 +279,7 @@ PROPS = {
                 "metadata sets (none; Content-Type + x-amz-meta; Content-Type + Content-Encoding + Content-Disposition + a 900-byte "
                 "value), uploaded by PUT (with and without Content-MD5), browser-form POST, copy, and Backend.PutObject; each followed "
                 "by GET and HEAD over HTTP (and through the Backend API) and a listing of the key; later operations on other keys, "
-                "then the same reads again. distinct_nontrivial = distinct (backend, integrity, upload path, size, key). Copies are made inside the bucket and, every third one, from a second bucket that holds an object of the destination's name (which must stay what it is). On the key-value backends the twin-key groups include keys that differ by leading or doubled slashes (lead, /lead, //lead). Two keys carry white space at their ends (blank-padded; a tab and a trailing blank). heldRead: an object opened through Backend.GetObject is read after its key was overwritten; the bytes are those its size and hash describe. apiPutReusedBuffer: Go-API uploads from a buffer the caller refills afterwards. On every second store the twin-key groups are written and read virtual-host style (host-bucket / host-bucket-base server on the same backend). recycledBucketPut: an upload whose body is held back while its empty bucket is deleted and created again; if acknowledged it is readable. The same bytes uploaded again to a key under other metadata (PUT, form POST, aws-chunked, Go API, copy onto itself; also an empty body); keys whose segments take 230 and 240 bytes in 115 and 80 characters. apiPutReusedMap: one metadata map handed to Backend.PutObject for two uploads and changed afterwards; the stored objects keep what each call was given.",
+                "then the same reads again. distinct_nontrivial = distinct (backend, integrity, upload path, size, key). Copies are made inside the bucket and, every third one, from a second bucket that holds an object of the destination's name (which must stay what it is). On the key-value backends the twin-key groups include keys that differ by leading or doubled slashes (lead, /lead, //lead). Two keys carry white space at their ends (blank-padded; a tab and a trailing blank). heldRead: an object opened through Backend.GetObject is read after its key was overwritten; the bytes are those its size and hash describe. apiPutReusedBuffer: Go-API uploads from a buffer the caller refills afterwards. On every second store the twin-key groups are written and read virtual-host style (host-bucket / host-bucket-base server on the same backend). recycledBucketPut: an upload whose body is held back while its empty bucket is deleted and created again; if acknowledged it is readable. The same bytes uploaded again to a key under other metadata (PUT, form POST, aws-chunked, Go API, copy onto itself; also an empty body); keys whose segments take 230 and 240 bytes in 115 and 80 characters. apiPutReusedMap: one metadata map handed to Backend.PutObject for two uploads and changed afterwards; the stored objects keep what each call was given. heldRead makes the overwrite plus eight 40 KB uploads and their deletes while its read is open.",
         "explanation": "Theorems: read-your-writes with the exact body and the metadata sent (C01_roundtrip), HEAD/GET agreement, "
                        "stability under operations on other keys (frame), listing entry = current version. Tie: the responses of the Go "
                        "handlers and of the Go Backend API vs the extracted model, with length and MD5 recomputed by the checker.",
